@@ -98,6 +98,10 @@ func histFiles(ext string) map[string]string {
 		"goodloop" + ext:        "<ul>@each(u in users)<li>{{ u.name }}</li>@end</ul>@for(k = 0; k < 2; k++)[{{ k }}]@end",
 		"badfor" + ext:          "@for(k = 0; k < 4; k++)[{{ 6 / (2 - k) }}]@end",
 		"errors/broken" + ext:   "broken error page {{ reason }}",
+		"layouts/bare" + ext:    "bare layout for {{ who }}@if(flag) flagged@end",
+		"usesbare" + ext:        "@use(\"~bare\")ignored page text",
+		"components/flag" + ext: "@if(admin)ADMIN@else guest@end@each(n in names)[{{ n }}]@end",
+		"usesflag" + ext:        "<@component(\"~flag\")>@each(k in [1, 2])(@component(\"~flag\"))@end",
 		"args" + ext:            "{{ word.at(-back) }}|{{ shown.then(!muted, \"n/a\") }}|{{ -n }}|{{ word.at(back - 1) }}|{{ [1, 2, 3].slice(-(back), 3) }}|@each(w in [word])@if(!muted){{ w.repeat(-(-back)) }}@end@end",
 		"item" + ext:            "item {{ it.name }}/{{ it.qty }} {{ it }}",
 	}
@@ -205,6 +209,22 @@ func histOps() []histOp {
 			out, err := textwire.EvaluateString("{{ it.name }} {{ it.extra }} {{ it.next.name }}", map[string]any{"it": histShared})
 			return fmt.Sprintf("out=%q err=%v", out, err)
 		}},
+		// pages whose layout (without reserves) or component (without arguments and slots) reads the data of the call
+		{"String(usesbare, who=ann)", str("usesbare", func() map[string]any { return map[string]any{"who": "ann", "flag": true} })},
+		{"String(usesbare, who=bob)", str("usesbare", func() map[string]any { return map[string]any{"who": "bob", "flag": false} })},
+		{"String(usesbare, nil)", str("usesbare", noData)},
+		{"String(usesflag, admin)", str("usesflag", func() map[string]any { return map[string]any{"admin": true, "names": []string{"a", "b"}} })},
+		{"String(usesflag, guest)", str("usesflag", func() map[string]any { return map[string]any{"admin": false, "names": []string{}} })},
+		{"Response(usesflag, nil)", resp("usesflag", noData)},
+		// sources of equal length (whose 32-bit FNV-1a hashes also agree): each evaluates to its own text
+		{"EvaluateString(invoice 232789)", func(h *histEnv) string {
+			out, err := textwire.EvaluateString("<p>Invoice 232789: {{ total }} EUR</p>", map[string]any{"total": 5})
+			return fmt.Sprintf("out=%q err=%v", out, err)
+		}},
+		{"EvaluateString(invoice 429192)", func(h *histEnv) string {
+			out, err := textwire.EvaluateString("<p>Invoice 429192: {{ total }} EUR</p>", map[string]any{"total": 5})
+			return fmt.Sprintf("out=%q err=%v", out, err)
+		}},
 		// one path rewritten between calls with text of the same length, the modification time restored
 		{"EvaluateFile(rewritten: bold)", func(h *histEnv) string { return evalRewritten(h, "<b>{{ 2 * 3 }}</b> first") }},
 		{"EvaluateFile(rewritten: italic)", func(h *histEnv) string { return evalRewritten(h, "<i>{{ 2 * 5 }}</i> other") }},
@@ -289,7 +309,7 @@ func init() {
 	core.Register(&core.Check{
 		ID:    "C16",
 		Level: "exploration",
-		Rule: "histories are all sequences up to length 2 (quick) / 3 (thorough), sampled ones a step longer and random ones of length 30, over 32 concrete operations on a fixed template tree: String of a layout+component+loop page with struct data, of a page reading user.name with a Go struct, with a map holding name and Name, with a lower-case-only map, of two pages that fail at run time after producing output, of a missing name, of a layout name, of a page calling reverse/append/slice/prepend on data arrays; Response ok/failing/missing (the failing ones render the error page through the string API); EvaluateString ok/failing; EvaluateFile ok/missing - on 3 directory/extension settings x debug on/off x custom error page none/valid/failing; also renders without data that assign at top level followed by renders that read the name, loops that fail in a later pass followed by other loops, one page with call arguments built from prefix operators rendered with two data sets, two struct types that print the same type name, and one long-lived pointer that first holds an unsupported value and is then repaired. " +
+		Rule: "histories are all sequences up to length 2 (quick) / 3 (thorough), sampled ones a step longer and random ones of length 30, over 40 concrete operations on a fixed template tree: String of a layout+component+loop page with struct data, of a page reading user.name with a Go struct, with a map holding name and Name, with a lower-case-only map, of two pages that fail at run time after producing output, of a missing name, of a layout name, of a page calling reverse/append/slice/prepend on data arrays; Response ok/failing/missing (the failing ones render the error page through the string API); EvaluateString ok/failing; EvaluateFile ok/missing - on 3 directory/extension settings x debug on/off x custom error page none/valid/failing; also renders without data that assign at top level followed by renders that read the name, loops that fail in a later pass followed by other loops, one page with call arguments built from prefix operators rendered with two data sets, two struct types that print the same type name, and one long-lived pointer that first holds an unsupported value and is then repaired. " +
 			"Each step's observation (output, or message+line+path; body and returned error for Response) is compared with the same operation issued first on a fresh load; after every step the verif hooks VerifFingerprint (loaded ASTs) and VerifState (configuration) must equal their values after load. distinct_nontrivial = distinct (configuration, history) pairs",
 		Assumptions: []string{
 			"the baseline of an operation is its result as the first call of a fresh process that loaded the same tree with the same configuration (one child process per operation and configuration)",
